@@ -77,6 +77,7 @@ class StreamItemQueue:
         self._producer_cancelled = False
         self._pending_futures: set[Future[WorkResult]] = set()
         self._aborted = False
+        self._cleaned_up = False
         self._failed = False
         self._finished = False
         self._stopped = False
@@ -106,11 +107,9 @@ class StreamItemQueue:
             self._aborted = True
             self._failed = True
             await self._settle_pending()
-            on_abort = self._on_abort
-            if on_abort is not None:
-                cleanup = on_abort(error)
-                if is_awaitable(cleanup):
-                    await cleanup
+            cleanup = self._run_abort_callback(error)
+            if is_awaitable(cleanup):
+                await cleanup
             self._producer_parked = True  # may park on the full queue
             await entries.put(_ErrorEntry(error))
         else:
@@ -250,7 +249,7 @@ class StreamItemQueue:
             # while trying to deliver its final entry
             producer_task.cancel()  # type: ignore[union-attr]
             self._producer_cancelled = True
-        if self._aborted:
+        if self._aborted and self._cleaned_up:
             # Aborted (or failed) before, so the cleanup has already run; only
             # release a producer that was still parked.
             return self._settle_parked() if parked else None
@@ -271,11 +270,9 @@ class StreamItemQueue:
             future.cancel()
         if not running and not self._pending_futures:
             # nothing to cancel asynchronously, just run the cleanup callback
-            on_abort = self._on_abort
-            if on_abort is not None:
-                cleanup = on_abort(reason)
-                if is_awaitable(cleanup):
-                    return cleanup
+            cleanup = self._run_abort_callback(reason)
+            if is_awaitable(cleanup):
+                return cleanup
             return None
         return self._cleanup(reason)
 
@@ -306,8 +303,22 @@ class StreamItemQueue:
         buffered = self._abort_buffered_work(reason)
         if buffered:
             await gather(*buffered, return_exceptions=True)
+        cleanup = self._run_abort_callback(reason)
+        if is_awaitable(cleanup):
+            await cleanup
+
+    def _run_abort_callback(
+        self, reason: BaseException | None
+    ) -> Awaitable[None] | None:
+        """Run the abort callback, but only once.
+
+        The callback cleans up the source of the stream. It must not be run
+        twice when the stream fails while it is being aborted, and it must
+        still be run by a later abort when an earlier cleanup was interrupted
+        by a cancellation before it got that far.
+        """
         on_abort = self._on_abort
-        if on_abort is not None:
-            cleanup = on_abort(reason)
-            if is_awaitable(cleanup):
-                await cleanup
+        if on_abort is None or self._cleaned_up:
+            return None
+        self._cleaned_up = True
+        return on_abort(reason)
